@@ -15,4 +15,22 @@ if [ -f rt/iofault.c ]; then
     gcc -O2 -g -shared -fPIC -o $T/iofault.so.tmp rt/iofault.c -ldl -lpthread && mv $T/iofault.so.tmp $T/iofault.so
   fi
 fi
-echo "setup ok"
+echo "setup ok (tools)"
+# in-process property targets: the C++ side does not depend on /repo (only on inproc/glue.h), so it is compiled here
+# once; the glue objects are compiled from /repo/src at check time and linked with these (lib/props/_inproc.py).
+CXXF="-std=gnu++17 -g -O1 -fno-omit-frame-pointer -Iinproc"
+SAN="-fsanitize=address,undefined -fno-sanitize-recover=undefined"
+newer() { [ ! -f "$1" ] || [ inproc/targets.cpp -nt "$1" ] || [ inproc/glue.h -nt "$1" ] || [ bzkit/bzgen.hpp -nt "$1" ] || [ bzkit/bzkit.hpp -nt "$1" ]; }
+if [ -f inproc/targets.cpp ]; then
+  pids=""
+  if newer $T/targets_rc.o; then
+    (clang++ $CXXF $SAN -c inproc/targets.cpp -o $T/targets_rc.o.tmp && mv $T/targets_rc.o.tmp $T/targets_rc.o) & pids="$pids $!"
+  fi
+  for p in decode_raw decode_defect decode_valid roundtrip collect; do
+    if newer $T/targets_fz_$p.o; then
+      (clang++ $CXXF $SAN -fsanitize=fuzzer-no-link -DVT_LIBFUZZER=$p -c inproc/targets.cpp -o $T/targets_fz_$p.o.tmp && mv $T/targets_fz_$p.o.tmp $T/targets_fz_$p.o) & pids="$pids $!"
+    fi
+  done
+  for pid in $pids; do wait $pid || { echo "setup: building in-process targets failed"; exit 1; }; done
+fi
+echo "setup ok (in-process targets)"
